@@ -838,6 +838,12 @@ pub fn run_replay(info: &PropertyInfo, path: &Path) -> i32 {
     for line in &stats.known {
         println!("{line}");
     }
+    for s in &stats.inconclusive {
+        eprintln!("INCONCLUSIVE: {s}");
+    }
+    if !stats.inconclusive.is_empty() && stats.violations.is_empty() {
+        return 2;
+    }
     if stats.replays_run == 0 {
         eprintln!("no search claimed the replay file {}", path.display());
         return 2;
